@@ -54,7 +54,7 @@ PROPS = {
         rule=("case = one call (operation, level module/kernel, module type, dispatch, N, res/a/b limb counts, stride "
               "choices, extra-limb flag); distinct by descriptor hash; non-trivial when res_size >= 1 and at least one "
               "source limb is used"),
-        require={"all": ["limbs_compared", "dispatch:native", "dispatch:generic", "dispatch:kernel-avx", "dispatch:kernel-ref", "aliased_calls", "interleaved_view_calls", "concurrent_vector_calls"]},
+        require={"all": ["limbs_compared", "dispatch:native", "dispatch:generic", "dispatch:kernel-avx", "dispatch:kernel-ref", "aliased_calls", "interleaved_view_calls", "concurrent_vector_calls", "same_input_calls"]},
         assumptions=["per-limb definition evaluated by the harness (missing limb = 0)",
                      "stride padding and guard bands are ASan-poisoned and carry canaries; inputs are byte-snapshotted", ASAN_NOTE],
     ),
